@@ -110,6 +110,10 @@ void median_filter(SrcView const& src_view, DstView const& dst_view, std::size_t
         typename color_space_type<DstView>::type
     >::value, "Source and destination views must have pixels with the same color space");
 
+    // an empty image has no edge pixels to replicate and no pixels to filter
+    if (src_view.width() == 0 || src_view.height() == 0)
+        return;
+
     std::size_t half_kernel_size = kernel_size / 2;
     auto extended_img = extend_boundary(
         src_view,
